@@ -199,9 +199,10 @@ def value_for(r, ref, req, long_strings=0.0):
     return v
 
 
-INVALID_KINDS_R = ("unknown_tag", "unknown_member", "index_oob", "count_oob", "count_absurd", "index_malformed")
+INVALID_KINDS_R = ("unknown_tag", "unknown_member", "index_oob", "count_oob", "count_absurd", "index_malformed",
+                   "not_a_tag")
 INVALID_KINDS_W = ("unknown_tag", "unknown_member", "index_oob", "count_oob", "unencodable", "too_short",
-                   "misaligned_bool", "count_absurd", "index_malformed")
+                   "misaligned_bool", "count_absurd", "index_malformed", "not_a_tag")
 
 
 def gen_invalid(r, ref, for_write):
@@ -243,6 +244,12 @@ def gen_invalid(r, ref, for_write):
             n = _n(dims) + r.choice((1, 2, 50))
             v = [gen_value(r, ref, t["type"]) for _ in range(n)] if for_write else None
             return pre + t["name"] + "{" + str(n) + "}", v, kind
+        if kind == "not_a_tag":
+            # strings that name no tag at all: a bare program scope, an empty name, only punctuation
+            progs = sorted(ref.project.get("programs", {}))
+            cands = ["Program:" + progs[0]] if progs else []
+            cands += ["Program:NoSuchProgram", "", ".", "Program:", t["name"] + ".", "." + t["name"]]
+            return r.choice(cands), (1 if for_write else None), kind
         if kind == "count_absurd":
             # counts no controller array can have: beyond the 16-bit element count, zero, negative
             if t["type"] not in ATOMIC_BY_NAME or t["type"] == "DWORD":
